@@ -84,7 +84,7 @@ def main(argv=None):
             if args.case and not re.search(args.case, repr(case)):
                 continue
             nb = getattr(cls, "n_bounded", {"quick": 3, "thorough": 25})
-            tasks.append({"module": cls.__module__, "contract": cls.__name__, "case": case, "tier": args.tier,
+            tasks.append({"module": cls.__module__, "contract": cls.__name__, "case": case, "tier": args.tier, "pid": pid,
                           "seed": args.seed, "timeout": timeout,
                           "n_bounded": nb[args.tier] if isinstance(nb, dict) else nb})
     if not tasks:
